@@ -567,11 +567,46 @@ fn loop_family(rng: &mut Rng, tag: usize) -> Vec<String> {
     forms
 }
 
+/// named let whose tag has the name of a variable that is visible around the form and that an
+/// init expression (or a closure created in one) reads or assigns: the tag is bound in the body only
+fn tag_shadow_family(rng: &mut Rng, tag: usize) -> Vec<String> {
+    let t = tag;
+    let k = 3 + rng.usize(4);
+    match rng.below(4) {
+        // the tag shadows a parameter
+        0 => vec![
+            format!("(define (ts{t} k) (let k ((n (+ k 1)) (acc '())) (if (> n {k}) (reverse acc) (k (+ n 1) (cons n acc)))))"),
+            format!("(ts{t} 1)"),
+            format!("(ts{t} 3)"),
+        ],
+        // the tag shadows a global procedure that an init calls
+        1 => vec![
+            format!("(define (tg{t} x) (* x 2))"),
+            format!("(let tg{t} ((n (tg{t} 2)) (acc 0)) (if (> n {k}) acc (tg{t} (+ n 1) (+ acc n))))"),
+            format!("(tg{t} 5)"),
+        ],
+        // a closure created in an init reads and assigns the outer variable
+        2 => vec![
+            format!("(define (tc{t} go) (let go ((get (lambda () go)) (put (lambda (v) (set! go v))) (i 0)) (if (< i 2) (begin (put (list 'put i (get))) (go get put (+ i 1))) (get))))"),
+            format!("(tc{t} 'start)"),
+        ],
+        // the tag shadows an internal definition
+        _ => vec![
+            format!("(define (td{t} a) (define w (* a 10)) (let w ((n w) (acc '())) (if (> (length acc) 2) acc (w (+ n 1) (cons n acc)))))"),
+            format!("(td{t} 4)"),
+        ],
+    }
+}
+
 pub fn loop_session(rng: &mut Rng) -> Vec<Sx> {
     let n = 1 + rng.usize(2);
     let mut texts = vec![];
     for tag in 0..n {
-        texts.extend(loop_family(rng, tag));
+        if rng.chance(1, 3) {
+            texts.extend(tag_shadow_family(rng, tag));
+        } else {
+            texts.extend(loop_family(rng, tag));
+        }
     }
     texts.iter().map(|t| crate::sx::read_one(t).unwrap_or_else(|e| panic!("loop session text: {} in {}", e, t))).collect()
 }
